@@ -42,7 +42,8 @@ def r1_no_out_of_bounds_block(ctx):
     bump = ar.calls_to(B + "alloc_raw_bump")
     if bump and all(any(op == "Gt" and sh(x) == "end" and "commit" in sh(y) for op, x, y, S in cmp_facts(ar, c.block)) for c in bump):
         a = [sh(ne(ar.deep(x))) for x in bump[0].args[1:]]
-        if a[0].startswith("BitAnd(") and a[1].startswith("Add(BitAnd("):
+        from ..linear import lin
+        if a[0].startswith("BitAnd(") and lin(ne(ar.deep(bump[0].args[2]))) == ({a[0]: 1, "bytes": 1}, 0):
             ctx.ok("alloc_raw|slow-path", ar.where(bump[0].block), "end > commit -> alloc_raw_bump(beg, end)")
         else:
             ctx.bad("alloc_raw|slow-path-args", ar.where(bump[0].block), "alloc_raw_bump is called with (%s, %s), not (beg, end)" % (a[0][:40], a[1][:40]))
